@@ -375,9 +375,60 @@ func Discharge(pre *Pre, fgs []*FuncGen, filter func(*Obligation) bool, timeoutM
 		}(o)
 	}
 	wg.Wait()
+	// third round: a merged postcondition that was not proved is re-checked clause by clause, so that the
+	// report names the clause and clauses that do not belong to the selected property do not count
+	partsOf := map[*Obligation][]*Obligation{}
+	for _, o := range rest {
+		if len(o.Parts) == 0 || results[o].Status == "proved" {
+			continue
+		}
+		for _, po := range o.Parts {
+			if !filter(po) {
+				continue
+			}
+			partsOf[o] = append(partsOf[o], po)
+			wg.Add(1)
+			sem <- struct{}{}
+			go func(o, po *Obligation) {
+				defer wg.Done()
+				defer func() { <-sem }()
+				fg := byFg[o]
+				via := o.Via
+				if len(fg.order) <= 12 {
+					via = -1
+				}
+				script := fg.ScriptVia(o.Block, via) + oblScript(po, true)
+				script = pre.For(script) + script
+				if d := os.Getenv("GOVC_KEEP"); d != "" {
+					os.WriteFile(filepath.Join(d, strings.NewReplacer("/", "_", "#", "_", "@", "_").Replace(po.Name)+".smt2"), []byte(script), 0o644)
+				}
+				r := raceSolvers(script, po, timeoutMs*3, nil, false)
+				mu.Lock()
+				results[po] = r
+				mu.Unlock()
+			}(o, po)
+		}
+	}
+	wg.Wait()
 	var out []*Result
 	for _, jb := range jobs {
 		for _, o := range jb.obls {
+			if ps, ok := partsOf[o]; ok {
+				all := true
+				for _, po := range ps {
+					if results[po].Status != "proved" {
+						all = false
+						out = append(out, results[po])
+					}
+				}
+				if all {
+					// every clause of the selected property holds on its own
+					r := results[o]
+					r.Status, r.Solver = "proved", "portfolio(per clause)"
+					out = append(out, r)
+				}
+				continue
+			}
 			out = append(out, results[o])
 		}
 	}
